@@ -158,6 +158,7 @@ def ob_seconds(nmax: int, hsize: int, now: int, recs: List[Tuple[int, int, int]]
 # JsonHistoryGC.run : refuse / force rule, removal loop, unit decoding
 # ----------------------------------------------------------------------------
 _UNITS = ["commands", "files", "s", "b"]
+_UNIT_ALIASES = ["cmds", "f", "s", "kb"]  # spellings to_history_tuple canonicalises (kb scales by 1024)
 
 
 class _Env(dict):
@@ -218,7 +219,7 @@ class _OS:
 
 
 def ob_run(nmax: int, unit: int, hsize: int, force: bool, now: int, fail: int,
-           recs: List[Tuple[int, int, int]]) -> Optional[str]:
+           recs: List[Tuple[int, int, int]], size_given: bool = False) -> Optional[str]:
     if len(recs) > nmax or hsize < 0 or now < 0 or not (0 <= unit < 4) or not (-1 <= fail < nmax):
         raise Skip()
     files = _mk_files(recs)
@@ -231,7 +232,12 @@ def ob_run(nmax: int, unit: int, hsize: int, force: bool, now: int, fail: int,
     saved = (hj.time, hj.os, XSH.env, getattr(XSH, "history", None), builtins.print)
     hj.time = _Clock(now)
     hj.os = _OS(saved[1], removed, fail=_NAMES[fail] if fail >= 0 else None)
-    XSH.env = _Env(XONSH_HISTORY_SIZE=(hsize, units), XONSH_DEBUG=0)
+    if size_given:
+        # `history gc --size`: the limit comes from the command line through to_history_tuple, the env holds another one
+        gc.size = (hsize, _UNIT_ALIASES[unit])
+        XSH.env = _Env(XONSH_HISTORY_SIZE=(hsize + 7, "files"), XONSH_DEBUG=0)
+    else:
+        XSH.env = _Env(XONSH_HISTORY_SIZE=(hsize, units), XONSH_DEBUG=0)
     XSH.history = None
     hj.print = lambda *a, **k: None
     try:
@@ -239,6 +245,8 @@ def ob_run(nmax: int, unit: int, hsize: int, force: bool, now: int, fail: int,
     finally:
         hj.time, hj.os, XSH.env, XSH.history = saved[0], saved[1], saved[2], saved[3]
         del hj.print
+    if size_given and unit == 3:
+        hsize = hsize * 1024
     over, rm = _reference_rm(units, hsize, files, now)
     expect = [f[2] for f in rm] if (force or over < hsize) else []
     if fail >= 0:
@@ -493,11 +501,11 @@ OBLIGATIONS = [
                pre=["len(recs) <= nmax", "hsize >= 0", "now >= 0"], parts=_parts("nmax", 4, 6),
                timeout={"quick": 90, "thorough": 900}, symbolic="hsize, now, " + _REC),
     Obligation("gc_run", ob_run,
-               bounds="<=3 / <=5 unlocked files, every unit, force flag, one optional failing os.remove",
+               bounds="<=3 / <=6 unlocked files, every unit, force flag, one optional failing os.remove; limit from the environment or (<=2 files) from `--size` through to_history_tuple with an alias unit spelling",
                pre=["len(recs) <= nmax", "hsize >= 0", "now >= 0", "-1 <= fail < nmax"],
-               parts={"quick": [dict(nmax=3, unit=u) for u in range(4)],
+               parts={"quick": [dict(nmax=3, unit=u) for u in range(4)] + [dict(nmax=2, unit=u, size_given=True, fail=-1) for u in (0, 1, 3)],
                       "thorough": [dict(nmax=6, unit=u) for u in range(4)]},
-               timeout={"quick": 120, "thorough": 1200},
+               timeout={"quick": 240, "thorough": 1200},
                symbolic="hsize, force, now, index of failing remove, " + _REC),
     Obligation("gc_files_filter", ob_files_filter,
                bounds="exactly 0..2 (quick) / 0..3 (thorough) files, every (locked, unreadable) flag pattern; "
